@@ -1032,7 +1032,75 @@ def response_match(ctx):
             'an event whose opcode differs from the pending command is only logged and still resolves the pending future: after a response timeout the late answer to the previous command is handed to the next caller', p.loc(cp), bad[:2])
 
 
+def le_connection_concluded(ctx):
+    """An accepted LE Create Connection stays in `pending_le_connection` until it is concluded.  `create_le_connection`
+    runs when the wanted advertiser is heard: every way out of it has emitted an LE (Enhanced) Connection Complete event
+    and cleared the pending slot -- otherwise the host's connect() waits for ever while every later advertisement takes
+    the same dead exit."""
+    R, p = ctx.r, ctx.p
+    rule = 'C03.le-connection-concluded'
+    fn = p.find('bumble.controller.Controller.create_le_connection')
+    if fn is None:
+        R.bad(rule, 'bumble.controller.Controller.create_le_connection', 'anchor missing')
+        return
+
+    class D(paths.Domain):
+        # value: (event sent?, pending cleared?)
+        def event(self, node, v):
+            sent, cleared = v
+            if isinstance(node, ast.Call) and dotted(node.func) in ('self.send_hci_packet',) and node.args and isinstance(node.args[0], ast.Call) and 'Connection_Complete_Event' in (dotted(node.args[0].func) or ''):
+                sent = True
+            if isinstance(node, ast.Assign) and any(dotted(t) == 'self.pending_le_connection' for t in node.targets) and isinstance(node.value, ast.Constant) and node.value.value is None:
+                cleared = True
+            return ((sent, cleared),)
+    res = paths.run(fn, D(), (False, False))
+    ex = paths.normal_exits(res)
+    bad = [f'{" ".join(w)} (event sent: {v[0]}, pending cleared: {v[1]})' for v, w in ex.items() if v != (True, True)]
+    R.check(not bad and bool(ex), rule, 'bumble.controller.Controller.create_le_connection | every exit concludes', f'{len(ex)} exit state(s): Connection Complete emitted and pending_le_connection cleared on each',
+            'create_le_connection can return without emitting LE Connection Complete / without clearing pending_le_connection: the accepted LE Create Connection is never concluded (the host\'s connect() waits for ever)', p.loc(fn), bad[:3])
+
+
+def ready_gate(ctx):
+    """While the host is not `ready` (reset in progress) it drops what the controller sends -- except the response to the
+    command it has in flight: that caller holds the command semaphore, so dropping its response blocks every later
+    command (reset()'s own included)."""
+    R, p = ctx.r, ctx.p
+    rule = 'C03.ready-gate'
+    fn = p.find('bumble.host.Host.on_packet')
+    if fn is None:
+        R.bad(rule, 'bumble.host.Host.on_packet', 'anchor missing')
+        return
+    calls = [c for c in calls_in(fn) if dotted(c.func) == 'self.on_hci_packet']
+    R.check(len(calls) == 1, rule, 'bumble.host.Host.on_packet | dispatch', 'one dispatch to on_hci_packet', f'{len(calls)} dispatch sites', p.loc(fn))
+    if len(calls) != 1:
+        return
+    # the guard under which the packet is dispatched
+    node, test = calls[0], None
+    while getattr(node, '_parent', None) is not None and node is not fn:
+        par = node._parent
+        if isinstance(par, ast.If) and node in par.body and any(isinstance(x, ast.Attribute) and dotted(x) == 'self.ready' for x in ast.walk(par.test)):
+            test = par.test
+            break
+        node = par
+    if test is None:
+        R.ok(rule, 'bumble.host.Host.on_packet | gate', 'packets are dispatched whatever `ready` is', p.loc(fn))
+        return
+    disj = test.values if isinstance(test, ast.BoolOp) and isinstance(test.op, ast.Or) else [test]
+
+    def matches_pending(d):
+        for c in ast.walk(d):
+            if isinstance(c, ast.Compare) and len(c.ops) == 1 and isinstance(c.ops[0], ast.Eq):
+                sides = {norm(c.left), norm(c.comparators[0])}
+                if any(x.endswith('.command_opcode') for x in sides) and 'self.pending_command.op_code' in sides:
+                    return True
+        return False
+    R.check(any(matches_pending(d) for d in disj), rule, 'bumble.host.Host.on_packet | response to the command in flight', 'accepted even while the host is not ready',
+            'while `ready` is False only the Reset completion is let through: the response to a command that was queued behind reset() is dropped, its caller keeps the command semaphore and reset() waits for it for ever', p.loc(fn))
+
+
 RULES = [
+    ('C03.ready-gate', ready_gate),
+    ('C03.le-connection-concluded', le_connection_concluded),
     ('C03.response-match', response_match),
     ('C03.flag-width', flag_width),
     ('C03.identity', identity_rule),
